@@ -269,7 +269,7 @@ Proof.
   - exact H3.
 Qed.
 
-Lemma InvR_env calls D s a s' : InvR calls D s -> step_env calls s a = Some s' -> InvR calls (D_after D a) s'.
+Lemma InvR_env calls D s a s' : InvR calls D s -> step_env fixed calls s a = Some s' -> InvR calls (D_after D a) s'.
 Proof.
   intros HI H. unfold step_env in H. destruct a as [i|id x e| |n|f arg| |n|c|which n]; simpl D_after.
   - (* EStart *)
@@ -281,7 +281,7 @@ Proof.
     + inversion H; subst. apply InvR_caller_panic; [reflexivity|]. eapply InvR_take_fault; eauto.
     + assert (H1 : InvR calls D s1) by (eapply InvR_take_fault; eauto).
       destruct (bclosed s1) eqn:Eb; inversion H; subst.
-      * apply InvR_caller_panic; [reflexivity|auto].
+      * apply InvR_caller_return; [intros oe Hg; discriminate|auto].
       * apply InvR_register; auto.
   - (* EDeliverRes *)
     destruct (tget (threads s) TResLoop) as [[]|] eqn:Ht; try discriminate.
